@@ -12,8 +12,18 @@ const POOL: usize = 48;
 
 fn pool() -> &'static Vec<ReloadId> {
     static P: OnceLock<Vec<ReloadId>> = OnceLock::new();
-    P.get_or_init(|| super::common::harvest_reload_ids(POOL))
+    P.get_or_init(|| {
+        // 40 ids from real reloads (NEVER first), then boundary values of the counter that no test run can
+        // reach by reloading (built through the verification hook), in increasing order: index = rank
+        let mut p = super::common::harvest_reload_ids(POOL - BOUNDARY.len());
+        p.extend(BOUNDARY.iter().map(|raw| ReloadId::verif_from_raw(*raw)));
+        p
+    })
 }
+
+const BOUNDARY: [usize; 8] = [1 << 31, (1 << 32) + 1, 1 << 62, (1 << 63) - 1, 1 << 63, (1 << 63) + 1, usize::MAX - 1, usize::MAX];
+/// the ids of the enumerated part: NEVER, two small ones, 2^31, 2^63, usize::MAX
+const SUB: [usize; 6] = [0, 1, 2, 40, 44, 47];
 
 #[derive(Debug, Clone, Copy, Serialize, Deserialize, PartialEq, Eq)]
 pub enum Op {
@@ -58,8 +68,8 @@ impl Prop for C18 {
 
     fn rule(&self) -> String {
         "cases = (initial id, sequential op list over ReloadId::update / AtomicReloadId::{update,fetch_max,swap,store,load}, \
-         concurrent offer lists for 0..8 threads, race rounds in which 2..4 threads offer to a fresh cell at the same instant behind a spin rendezvous) over a pool of 48 ids harvested from real reloads (NEVER first); \
-         enumerated part: every initial id x every op sequence up to the length bound over a 6-id sub-pool. \
+         concurrent offer lists for 0..8 threads, race rounds in which 2..4 threads offer to a fresh cell at the same instant behind a spin rendezvous) over a pool of 48 ids: 40 harvested from real reloads (NEVER first) and 8 boundary counter values (2^31, 2^32+1, 2^62, 2^63-1, 2^63, 2^63+1, MAX-1, MAX) built through the verification hook; \
+         enumerated part: every initial id x every op sequence up to the length bound over a 6-id sub-pool (NEVER, 1, 2, 2^31, 2^63, MAX). \
          non-trivial = the sequential part contains both an update that grows and one that does not, \
          or the concurrent part has >= 2 threads; distinct = different canonical JSON"
             .into()
@@ -67,7 +77,7 @@ impl Prop for C18 {
 
     fn assumptions(&self) -> Vec<String> {
         vec![
-            "ReloadIds can only be obtained from real reloads; the pool is harvested once per worker process".into(),
+            "ReloadIds come from real reloads (harvested once per worker process) or, for boundary counter values, from the hook ReloadId::verif_from_raw".into(),
             "concurrent interleavings are sampled by the OS scheduler, not enumerated".into(),
         ]
     }
@@ -96,9 +106,8 @@ impl Prop for C18 {
     }
 
     fn enumerate(&self, tier: Tier) -> Vec<Value> {
-        let n = 6;
         let mut alphabet = vec![Op::Load];
-        for i in 0..n {
+        for i in SUB {
             alphabet.extend([Op::RUpdate(i), Op::AUpdate(i), Op::FetchMax(i), Op::Swap(i), Op::Store(i)]);
         }
         let max_len = match tier {
@@ -123,7 +132,7 @@ impl Prop for C18 {
         // one case per (init, first op) prefix would change semantics, so keep one sequence per case
         // but only for quick; thorough uses every init as well.
         let mut out = Vec::new();
-        for init in 0..n {
+        for init in SUB {
             for s in &seqs {
                 out.push(to_case(&Case {
                     init,
@@ -138,7 +147,7 @@ impl Prop for C18 {
 
     fn enumerate_note(&self, tier: Tier) -> String {
         format!(
-            "every initial id in a 6-id sub-pool (incl. NEVER) x every op sequence of length <= {} over 31 ops",
+            "every initial id in a 6-id sub-pool (NEVER, 1, 2, 2^31, 2^63, usize::MAX) x every op sequence of length <= {} over 31 ops",
             if tier == Tier::Quick { 2 } else { 3 }
         )
     }
@@ -153,6 +162,12 @@ impl Prop for C18 {
         check!(out, "never-not-least", ReloadId::default() == ReloadId::NEVER, "ReloadId::default() != NEVER");
         for w in pool.windows(2) {
             check!(out, "ids-not-increasing", w[0] < w[1], "reload ids of successive reloads do not increase: {:?} then {:?}", w[0], w[1]);
+        }
+        // the order is the order of the counters, for every pair (NEVER is the least id)
+        for i in 0..pool.len() {
+            for j in 0..pool.len() {
+                check!(out, "order-not-by-counter", (pool[i] < pool[j]) == (i < j) && (pool[i] == pool[j]) == (i == j), "ids #{i} {:?} and #{j} {:?} compare inconsistently with their counters", pool[i], pool[j]);
+            }
         }
 
         // sequential part against the max model
